@@ -13,3 +13,31 @@ Theorem c02_partial_row_merge_places_values_exactly :
     Permutation (combine dc dvals ++ killed) (combine sc sv ++ new_pair nw).
 Proof. exact merge_row_conserves. Qed.
 Print Assumptions c02_partial_row_merge_places_values_exactly.
+
+Require Import EV.SlotMap EV.Store.
+
+(* despawn's row removal on a consistent store: succeeds, keeps the store consistent, removes
+   exactly that entity, and changes no component of any other entity - although it swap-removes
+   a row and re-points the displaced entity *)
+Theorem c02_row_removal_touches_no_other_entity :
+  forall (w : world) (ai row : N) (a : arch) (e : key) (vals : list cval),
+    StoreInv w -> arch_at w ai = Some a -> nget (a_rows a) row = Some (e, vals) ->
+    exists w', remove_entity w (ai, row) = ROk tt w' /\ StoreInv w' /\
+               sm_get e (w_ents w') = None /\ (forall k c, k <> e -> abs w' k c = abs w k c).
+Proof. exact remove_entity_ok. Qed.
+Print Assumptions c02_row_removal_touches_no_other_entity.
+
+(* the archetype move behind Insert and Remove: succeeds when the column walk does, keeps the
+   store consistent, changes no component of any other entity, and the moved entity reads back
+   exactly the destination values computed by the walk *)
+Theorem c02_archetype_move_touches_no_other_entity :
+  forall (w : world) (sai srow dst : N) (sa da : arch) (e : key) (vals : list cval) (nw : option (N * cval))
+         (dvals : list cval) (killed : list (N * cval)),
+    StoreInv w -> arch_at w sai = Some sa -> arch_at w dst = Some da -> sai <> dst ->
+    nget (a_rows sa) srow = Some (e, vals) ->
+    merge_row (S (length (a_comps sa) + length (a_comps da))) (a_comps sa) vals (a_comps da) nw = Some (dvals, killed) ->
+    exists w', move_entity w (sai, srow) dst nw = ROk tt w' /\ StoreInv w' /\
+               (forall k c, k <> e -> abs w' k c = abs w k c) /\
+               (forall c, abs w' e c = row_col da dvals c).
+Proof. exact move_entity_ok. Qed.
+Print Assumptions c02_archetype_move_touches_no_other_entity.
